@@ -357,6 +357,14 @@ def p_eq(a, b):
     d = sub(a, b)
     if d.isconst():
         return T if d.c == 0 else F
+    # X == 0 is impossible when the constant is not divisible by the common power of two of the coefficients,
+    # or when the form is bit-structured with a constant 1 bit
+    kmin = min(v2(k) for k in d.terms.values())
+    if d.c % (1 << kmin):
+        return F
+    bv = to_bits(d)
+    if bv is not None and any(x == 1 for x in bv):
+        return F
     n = neg(d)
     if repr(n) < repr(d):
         d = n
@@ -581,6 +589,25 @@ def _vars_base(b, acc):
                 vars_of(y, acc)
 
 
+def _consts_of(x, acc):
+    if isinstance(x, V):
+        if x.c:
+            acc.add(x.c)
+            acc.add((-x.c) & ((1 << x.w) - 1))
+        for (tag, b, lo, ln) in x.terms:
+            if b[0] == 'mem':
+                _consts_of(b[2], acc)
+            elif b[0] == 'mod':
+                _consts_of(b[1], acc)
+            elif b[0] == 'app':
+                for y in b[3]:
+                    _consts_of(y, acc)
+    elif isinstance(x, tuple):
+        for y in x:
+            if isinstance(y, (V, tuple)):
+                _consts_of(y, acc)
+
+
 CORNERS = [0, 1, 2, 3, 4, 0xF, 0x10, 0xFF, 0x100, 0x7FFFFFFF, 0x80000000, 0xFFFFFFFF, 0xFFFFFFFE, 0xFFFFFF00,
            0x1FFFFF, 0x200000, 0x7FFFF, 0x80000, 199999, 200000]
 
@@ -594,13 +621,20 @@ def distinguish(a, b, seed=0, tries=400, fixed=None, is_pred=False):
     vars_of(a, names)
     vars_of(b, names)
     names = sorted(names.items())
+    consts = set()
+    _consts_of(a, consts)
+    _consts_of(b, consts)
+    pool = list(CORNERS)
+    for c in sorted(consts):
+        for d in (c, -c, c + 1, c - 1, -c - 1, -c + 1):
+            pool.append(d & 0xFFFFFFFFFFFFFFFF)
     for t in range(tries):
         vals = dict(fixed or {})
         for n, w in names:
             if n in vals:
                 continue
-            if t < 40 and rnd.random() < 0.7:
-                vals[n] = rnd.choice(CORNERS) & ((1 << w) - 1)
+            if (t < 40 and rnd.random() < 0.7) or (t % 3 == 0 and rnd.random() < 0.6):
+                vals[n] = rnd.choice(pool) & ((1 << w) - 1)
             else:
                 vals[n] = rnd.getrandbits(w)
         env = Env(vals, salt=t)
